@@ -264,7 +264,7 @@ impl Instance {
                 .join(",")
         };
         format!(
-            "hid inc={} tok={} conn={} cur={} probe={},{},{},{},{},{} upd={} cus={} hst={}",
+            "hid inc={} tok={} conn={} cur={} probe={},{},{},{},{},{} upd={} cus={} hst={} cfg={}",
             s.incarnation,
             s.timer_token,
             ["disconnected", "connected", "undead"][s.connection_state as usize],
@@ -277,7 +277,8 @@ impl Instance {
             if s.reached_indirect_probe_stage { 1 } else { 0 },
             entries(&s.updates),
             entries(&s.custom_broadcasts),
-            h
+            h,
+            cfg_of_foca(&s.config).text()
         )
     }
 
@@ -293,5 +294,23 @@ impl Instance {
         v.push(self.obs_line());
         v.push(self.hid_line());
         v
+    }
+}
+
+/// the configuration as foca holds it, in protocol form
+pub fn cfg_of_foca(c: &foca::Config) -> crate::proto::Cfg {
+    let per = |p: &Option<foca::PeriodicParams>| p.as_ref().map(|x| (x.frequency.as_millis() as u64, x.num_members.get()));
+    crate::proto::Cfg {
+        probe_period: c.probe_period.as_millis() as u64,
+        probe_rtt: c.probe_rtt.as_millis() as u64,
+        k: c.num_indirect_probes.get(),
+        max_tx: c.max_transmissions.get(),
+        s2d: c.suspect_to_down_after.as_millis() as u64,
+        rda: c.remove_down_after.as_millis() as u64,
+        mps: c.max_packet_size.get(),
+        notify_down: c.notify_down_members,
+        pa: per(&c.periodic_announce),
+        pad: per(&c.periodic_announce_to_down_members),
+        pg: per(&c.periodic_gossip),
     }
 }
